@@ -108,6 +108,24 @@ def scenario_snapshot_timing(k):
         return diverged(net, k, hist, "removed-key-rewritten-where-only-some-nodes-had-snapshotted-it")
     return fn
 
+def scenario_concurrent_clients(k, cmd_a, cmd_b, sched):
+    """two clients on the PRIMARY whose commands overlap at lock level (threads parked before every lock acquisition, schedule `sched`);
+    then every message is delivered and every node is compared with the primary.  Implementation only: the sequential model cannot follow
+    an interleaving; the convergence oracle judges."""
+    def fn(net, rng):
+        if not setup(net, k, rng): return [Failure("cluster-does-not-form", f"{k} nodes")]
+        net.op(1, "SESS 2"); net.cmd(1, 2, "use-db t tok")
+        hist = [(1, "set n 5"), (1, "set a 0")]
+        for (_, c) in hist: net.cmd(1, 1, c)
+        if net.quiesce(rng, 300) is None: return [Failure("no-quiescence", "setup")]
+        esc = lambda c: core.esc(c.encode(), sp=True)
+        net.op(1, f"PAR {sched} 1 {esc(cmd_a)} 2 {esc(cmd_b)}"); net.op(1, "PUMP")
+        hist += [(1, f"{cmd_a} || {cmd_b} (schedule {sched})")]
+        if net.quiesce(rng, 300) is None: return [Failure("no-quiescence", "after the overlapping commands")]
+        return diverged(net, k, hist, f"overlapping-clients-on-the-primary:{cmd_a.split(' ')[0]}+{cmd_b.split(' ')[0]}")
+    fn.impl_only = True
+    return fn
+
 def scenario_versions(k, script):
     """fixed sequences around the version markers a client may write: -2 ('in conflict'), -1 (unversioned), exact and stale versions"""
     def fn(net, rng):
@@ -148,12 +166,18 @@ def scenarios(tier):
         S.append((f"k{k}-secondary-only", scenario(k, 6, False, single_node=2)))
         S.append((f"k{k}-snapshot-timing", scenario_snapshot_timing(k)))
         for vi, sc in enumerate(VERSION_SCRIPTS): S.append((f"k{k}-version-markers-{vi}", scenario_versions(k, sc)))
+    # two concurrent clients on the primary (the quantifier's second case), lock-level schedules
+    import random
+    r = random.Random(17)
+    scheds = ["0", "1", "01" * 8, "10" * 8, "0011" * 4, "1100" * 4, "000111" * 3, "111000" * 3] + ["".join(r.choice("01") for _ in range(16)) for _ in range(12 if tier == "quick" else 120)]
+    for (ca, cb) in (("increment n", "increment n 10"), ("increment n", "set n 100"), ("set-safe a 1 A", "increment a"), ("set a X", "remove a")):
+        for sc in scheds: S.append((f"k2-par-{ca.split(' ')[0]}-{cb.split(' ')[0]}-{sc}", scenario_concurrent_clients(2, ca, cb, sc)))
     return S
 
 RULE = ("clusters of 2 and 3 real nodes formed through the real join path (join -> supervisor -> connections -> set-primary / set-secoundary / replicate-since handshakes), then sequences of 1-8 client operations "
         "(set incl. multi-word values, remove, increment, set-safe from one node with versions -2 (the in-conflict marker), -1 and 0-3, create-user, set-permissions, snapshot, create-db) issued at seeded-random nodes, (a) sequentially with a seeded-random FIFO-respecting delivery order to quiescence "
         "after each operation and (b) with operations overlapping in flight (0-3 seeded-random deliveries between operations); at quiescence every node's full dataset (databases, strategy, per key value / removed status / version) is compared with the primary's. "
-        "plus fixed sequences around the version markers (-2, -1, exact, stale, jump) on the primary. Every primitive operation is also executed by the Lean model in lockstep and every output line compared. distinct by trace hash")
+        "(c) two clients on the primary whose commands overlap at LOCK level (increment / set / set-safe / remove pairs under 20 (thorough 128) schedules of the two threads' lock acquisitions; implementation only, judged by the convergence oracle); plus fixed sequences around the version markers (-2, -1, exact, stale, jump) on the primary. Every primitive operation is also executed by the Lean model in lockstep and every output line compared. distinct by trace hash")
 
 def main(tier, seed):
     return netrunner.run(PID, LEAN_MODULE, THEOREMS, scenarios(tier), RULE, tier, seed,
